@@ -87,3 +87,22 @@ def fork_call(fn, soft=120, hard=None):
         return json.loads(data)
     except Exception as e:
         return {'harness': 'badjson', 'exc': repr(e)}
+
+
+def local_call(fn, soft=120):
+    """Run fn() in this process (no fork) under a soft alarm; same result shape as fork_call.
+    Used by checks whose runs rebuild all the state they study (the fork snapshot is only
+    needed where process-global state is the object of study); forks are expensive in this
+    sandbox (copy-on-write page faults), see DESIGN.md."""
+    old = signal.signal(signal.SIGALRM, _alarm)
+    signal.alarm(int(soft))
+    try:
+        try:
+            return {'ok': fn()}
+        except SoftTimeout:
+            return {'harness': 'timeout', 'tb': traceback.format_exc()[-1500:]}
+        except BaseException as e:  # noqa
+            return {'harness': 'crash', 'exc': repr(e)[:500], 'tb': traceback.format_exc()[-3000:]}
+    finally:
+        signal.alarm(0)
+        signal.signal(signal.SIGALRM, old)
